@@ -119,6 +119,10 @@ func runC16(c *Ctx) {
 	r.Rule("C16.distance", "on the extracted step map: syndromes of all error patterns of weight 1 and 2 over the last 89 symbol positions (31 non-zero differences each) are non-zero and pairwise distinct ⇒ every pattern of weight <= 4 there has a non-zero syndrome; same-kind HRP substitutions leave x>>5 unchanged")
 	r.Assume("semantics of Go's integer bit operators as modelled by the ANF domain")
 
+	// the distance argument is about strings Decode accepts as a whole: which strings reach the checksum test (case rule
+	// over the whole string, character sets, lengths) is the statement of C04, whose obligations are decided here too
+	r.Rule("C16.decode", "the obligations of C04 hold for Decode (a substitution that changes the case of part of the string must be rejected before the checksum is consulted)")
+	reKey(c, "C04.", "C16.decode.", func() { runC04(c) })
 	fns := c16Resolve(c, "C16")
 	if fns == nil {
 		return
